@@ -174,6 +174,8 @@ def f_cyc():
     add("self_and", I("a", "b") + [("g", "and", ["g", "a"]), ("o", "or", ["g", "b"], True)])
     add("self_xnor3", I("a", "b") + [("g", "xnor", ["g", "a", "b"], True), ("h", "xor", ["h", "g", "a", "b"], True)])
     add("self_or_buf", I("a") + [("g", "or", ["g", "a"]), ("h", "nor", ["h"], True), ("o", "buf", ["g"], True)])
+    add("latch_consts", I("s") + [("k0", "0", []), ("k1", "1", []), ("q", "nor", ["k0", "qn"], True), ("qn", "nor", ["s", "q"]), ("o", "and", ["q", "k1"], True)])
+    add("ring_const_out", I("a") + [("k1", "1", [], True), ("p", "and", ["a", "q", "k1"]), ("q", "or", ["p", "a"], True)])
     add("two_cuts_v_first", I("a", "b") + [("v", "and", ["f", "g", "a"], True), ("f", "or", ["v", "b"]), ("g", "xor", ["v", "a"])])
     add("two_cuts_v_last", I("a", "b") + [("f", "or", ["v", "b"]), ("g", "xnor", ["v", "a"]), ("v", "nand", ["f", "g", "a"], True)])
     add("two_cuts_mixed", I("a", "b") + [("f", "nor", ["v", "b"]), ("v", "or", ["f", "g"], True), ("g", "and", ["v", "a"]), ("w", "xor", ["f", "g", "b"], True)])
@@ -183,7 +185,7 @@ def f_cyc():
 
 
 def rand_cyclic(rng, name):
-    s = rand_dag(rng, n_in=rng.randint(1, 3), n_gates=rng.randint(3, 8), max_arity=3, consts=False, name=name)
+    s = rand_dag(rng, n_in=rng.randint(1, 3), n_gates=rng.randint(3, 8), max_arity=3, consts=rng.random() < 0.3, name=name, wide=False)
     gates = [n for n, t, _ in s["nodes"] if t in GATES2]
     allg = [n for n, t, _ in s["nodes"] if t != "input"]
     es = {tuple(e) for e in s["edges"]}
